@@ -98,6 +98,11 @@ func (mpf Transform[T, O]) ProcessParallel(
 			// for each split, run a mapWorker
 
 			mf.mapPullProcess(output.Send().Write, opts).
+				// io.EOF from the processing step (as opposed
+				// to the input running dry) means this worker
+				// aborts: cancel the group, since ReadAll
+				// reports io.EOF as nil to the observer below.
+				WithErrorFilter(func(err error) error { ft.WhenCall(errors.Is(err, io.EOF), wcancel); return err }).
 				ReadAll(splits[idx].Producer()).
 				Operation(func(err error) {
 					ft.WhenCall(ers.Is(err, io.EOF, ers.ErrCurrentOpAbort), wcancel)
